@@ -247,6 +247,12 @@ func (w *ctrlWorld) inject(kind string) {
 		sw.Inject(watch.Event{Type: watch.Bookmark, Object: &corev1.Pod{ObjectMeta: metav1.ObjectMeta{ResourceVersion: fmt.Sprint(rv)}}})
 	case "nonobject":
 		sw.Inject(watch.Event{Type: watch.Added, Object: &runtime.Unknown{}})
+	case "error-object":
+		// an ERROR frame that carries an API object instead of a Status: skipped like any frame of unknown type
+		sw.Inject(watch.Event{Type: watch.Error, Object: &corev1.Pod{ObjectMeta: metav1.ObjectMeta{Namespace: "a", Name: "x", ResourceVersion: "1"}}})
+	case "error-nil":
+		// … and one that carries nothing: the stream is given up like after any non-object frame
+		sw.Inject(watch.Event{Type: watch.Error})
 	case "close":
 		sw.CloseStream()
 	case "replay-delete":
@@ -471,7 +477,8 @@ func runCtrlScenario(t *testing.T, tr *tracer, idx int, seed uint64, mode string
 			case x < 58:
 				w.step("bookmark", func() { w.inject("bookmark") })
 			case x < 60:
-				w.step("nonobject", func() { w.inject("nonobject") })
+				k := kv.Pick(r, []string{"nonobject", "nonobject", "error-object", "error-nil"})
+				w.step(k, func() { w.inject(k) })
 			case x < 61 && mode != "c04" && w.period < 1000*time.Hour:
 				w.step("replay-delete", func() { w.inject("replay-delete") })
 			case x < 72:
